@@ -8,6 +8,7 @@ parameters differ from their defaults (deviation bound 2).
 
 from __future__ import annotations
 
+import copy
 import inspect
 import itertools
 import json
@@ -134,6 +135,42 @@ def load_exceptions():
     return {}
 
 
+def alias_xml(elem):
+    """The same infoset written with non-canonical prefixes (q0, q1, ... bound on the top element):
+    legal XML namespaces, what another producer may write."""
+    uris = []
+    for e in elem.iter():
+        if not isinstance(e.tag, str):
+            continue
+        for name in [e.tag] + list(e.attrib):
+            if name.startswith("{"):
+                u = name[1:].split("}")[0]
+                if u not in uris and u != "http://www.w3.org/XML/1998/namespace":  # xml: is reserved
+                    uris.append(u)
+    nsmap = {f"q{i}": u for i, u in enumerate(uris)}
+
+    def build(e, top):
+        if not isinstance(e.tag, str):
+            return copy.deepcopy(e)
+        n = etree.Element(e.tag, nsmap=nsmap if top else None)
+        for k, v in e.attrib.items():
+            n.set(k, v)
+        n.text = e.text
+        for c in e:
+            cc = build(c, False)
+            cc.tail = c.tail
+            n.append(cc)
+        return n
+
+    return etree.tostring(build(elem, True), encoding="unicode")
+
+
+def infoset(e):
+    if not isinstance(e.tag, str):
+        return ("#", e.text, e.tail)
+    return (e.tag, tuple(sorted(e.attrib.items())), e.text or "", tuple((infoset(c), c.tail or "") for c in e))
+
+
 def work(clsname):
     cls = next(c for c in classes() if c.__name__ == clsname)
     exceptions = load_exceptions()
@@ -247,6 +284,20 @@ def work(clsname):
             continue
         if etree.tostring(back._Element__element, method="c14n") != etree.tostring(obj._Element__element, method="c14n"):
             rec(f"{clsname}.serialize", "roundtrip", "infoset", xml[:150], back.serialize()[:150], "infoset-differs-after-reparse", kw)
+        # b'. the same infoset under non-canonical namespace prefixes: same class, same tag name, same properties
+        aliased = None
+        try:
+            aliased = Element.from_tag(alias_xml(obj._Element__element))
+            if type(aliased) is not type(obj):
+                rec(f"{clsname}.from_tag", "aliased-prefixes", "class", clsname, type(aliased).__name__, "different-class-under-aliased-prefixes", kw)
+                aliased = None
+            elif infoset(aliased._Element__element) != infoset(obj._Element__element):
+                rec(f"{clsname}.from_tag", "aliased-prefixes", "infoset", xml[:150], aliased.serialize()[:150], "infoset-differs-under-aliased-prefixes", kw)
+                aliased = None
+            elif aliased.tag != obj.tag:
+                rec(f"{clsname}.tag", "aliased-prefixes", "tag", obj.tag, aliased.tag, "property-differs-under-aliased-prefixes", kw)
+        except Exception as e:
+            rec(f"{clsname}.from_tag", "aliased-prefixes", "raises", "no exception", f"{type(e).__name__}: {e}"[:150], f"raises-under-aliased-prefixes:{type(e).__name__}", kw)
         # c. same-named properties before / after re-parse; d. exposure of the arguments
         for n, p in ps:
             if not hasattr(cls, n) and not hasattr(obj, n):
@@ -270,6 +321,13 @@ def work(clsname):
                             rec(f"{clsname}.{n}", "property", "property-after-reparse", before, after, "property-differs-after-reparse", kw)
                 except Exception as e:
                     rec(f"{clsname}.{n}", "property", "property-after-reparse", before, f"{type(e).__name__}", "property-raises-after-reparse", kw)
+                if aliased is not None:
+                    try:
+                        al = getattr(aliased, n)
+                        if norm(al) != norm(before):
+                            rec(f"{clsname}.{n}", "aliased-prefixes", "property-under-aliased-prefixes", before, al, "property-differs-under-aliased-prefixes", kw)
+                    except Exception as e:
+                        rec(f"{clsname}.{n}", "aliased-prefixes", "property-under-aliased-prefixes", before, f"{type(e).__name__}", "property-raises-under-aliased-prefixes", kw)
             if n in kw and (p.default is inspect._empty or kw[n] != p.default):
                 want = color_norm(kw[n]) if "color" in n else norm(kw[n])
                 got = color_norm(before) if "color" in n else norm(before)
@@ -318,32 +376,37 @@ def dispatch_check():
             fails.append({"signature": f"site=dispatch:{path}; class=tag={e.tag}; symptom=wrong-class",
                           "replay": {"replay_module": "mc.checks.c12", "klass": "dispatch", "kwargs": {"path": path, "tag": e.tag}, "history": [], "oracle": "class-of-node", "expected": expect(e).__name__, "actual": type(e).__name__}})
 
-    def walk_children(e, depth=0):
-        check(e, "children")
+    def walk_children(e, label, depth=0):
+        check(e, label + "children")
         for c in e.children:
-            walk_children(c, depth + 1)
+            walk_children(c, label, depth + 1)
             par = c.parent
             if par is not None:
-                check(par, "parent")
-    walk_children(root)
-    for e in root.get_elements("descendant::*"):
-        check(e, "get_elements")
-    for e in root.xpath("descendant::*"):
-        if isinstance(e, Element):
-            check(e, "xpath")
-    cl = root.clone
-    check(cl, "clone")
-    for e in cl.get_elements("descendant::*"):
-        check(e, "clone.get_elements")
-        check(e.clone, "clone-of-node")
-        check(e.root, "root") if False else None
-    for t in tags:
-        q = qname(t)
-        if q:
-            e = root.get_element(f"descendant::{q}")
-            if e is not None:
-                check(e, "get_element")
-                check(Element.from_tag(e.serialize()), "from_tag(serialize)")
+                check(par, label + "parent")
+
+    def all_paths(root, label):
+        walk_children(root, label)
+        for e in root.get_elements("descendant::*"):
+            check(e, label + "get_elements")
+        for e in root.xpath("descendant::*"):
+            if isinstance(e, Element):
+                check(e, label + "xpath")
+        cl = root.clone
+        check(cl, label + "clone")
+        for e in cl.get_elements("descendant::*"):
+            check(e, label + "clone.get_elements")
+            check(e.clone, label + "clone-of-node")
+        for t in tags:
+            q = qname(t)
+            if q:
+                e = root.get_element(f"descendant::{q}")
+                if e is not None:
+                    check(e, label + "get_element")
+                    check(Element.from_tag(e.serialize()), label + "from_tag(serialize)")
+
+    all_paths(root, "")
+    # the same tree written with non-canonical namespace prefixes
+    all_paths(Element.from_tag(alias_xml(root._Element__element)), "aliased-prefixes:")
     return nev, fails
 
 
@@ -373,7 +436,7 @@ def run(prop, tier, vseed):
         "distinct_nontrivial": len(pairs),
         "deviation_bound": 2,
         "reviewed_exceptions": len(load_exceptions()),
-        "rule": "every class of the registry (read at run time) x every argument vector with at most two parameters off their defaults over type/name-directed domains: well-formed XML, same class after re-parse, identical serialisation, every same-named property equal before/after re-parse, every passed argument exposed by its same-named property (reviewed exceptions in c12_exceptions.json); dispatch: one instance of every tag nested 3 deep through children / parent / get_elements / xpath / clone / get_element / from_tag; distinct_nontrivial = distinct (class, parameter-with-property) pairs",
+        "rule": "every class of the registry (read at run time) x every argument vector with at most two parameters off their defaults over type/name-directed domains: well-formed XML, same class after re-parse, identical serialisation, every same-named property equal before/after re-parse, every passed argument exposed by its same-named property (reviewed exceptions in c12_exceptions.json); the same infoset written with non-canonical namespace prefixes gives the same class, tag name and property values; dispatch: one instance of every tag nested 3 deep through children / parent / get_elements / xpath / clone / get_element / from_tag, in the canonical and in the aliased-prefix encoding; distinct_nontrivial = distinct (class, parameter-with-property) pairs",
         "samples": [{"class": "Frame", "kwargs": {"name": "a b", "anchor_type": "page"}}],
         "exhaustive": True,
     }
